@@ -291,6 +291,19 @@ impl<'a, T: Read + Write + Seek> PointCloudWriter<'a, T> {
         validate_color(prototype)?;
         validate_return(prototype)?;
 
+        // Integer ranges must not be empty, such a record cannot be read again
+        for record in prototype {
+            match record.data_type {
+                RecordDataType::Integer { min, max }
+                | RecordDataType::ScaledInteger { min, max, .. }
+                    if min > max =>
+                {
+                    Error::invalid("The minimum of an integer type must not exceed its maximum")?
+                }
+                _ => {}
+            }
+        }
+
         // Row & column check
         if let Some(record) = get(RecordName::RowIndex) {
             match record.data_type {
